@@ -141,6 +141,40 @@ def c16i(prog, rep):
     rep.analysed["stdout_handles"] = len(so)
 
 
+def callback_arg_origins(prog, closure, param_local):
+    """What a closure's parameter receives: the closure is handed to one FileFormatter function (the driver), which calls it once with a
+    tuple of arguments; the origins (in the driver) of the tuple component that becomes `param_local` of the closure.  None if the
+    closure is not handed to exactly one driver that calls it exactly once."""
+    parent = prog.body(closure.root) if closure.kind == "Closure" else None
+    if parent is None:
+        return None
+    fam = [parent] + [x for x in prog.bodies.values() if x.npath.startswith(parent.npath + "::") and x.npath != closure.npath]
+    handed = []
+    for x in fam:
+        for c in x.calls():
+            for i, a in enumerate(c.args):
+                if a["k"] in ("copy", "move") and not a["place"]["p"] and norm(x.locals[a["place"]["l"]].get("closure") or "") == closure.npath:
+                    handed.append((c, i))
+    if len(handed) != 1:
+        return None
+    site, i = handed[0]
+    drv = prog.body(site.resolved or site.callee or "")
+    if drv is None or not drv.crate.startswith("pasfmt"):
+        return None
+    inv = [c for c in drv.calls() if (c.callee or "").split("::")[-1] in ("call_once", "call", "call_mut") and "ops::function::Fn" in (c.callee or "")
+           and c.args and canon(drv, c.args[0]) == "arg%d" % (i + 1)]
+    if len(inv) != 1 or len(inv[0].args) != 2:
+        return None
+    og = Origins(drv)
+    for o in og.of_operand(inv[0].args[1]):
+        if o[0] == "agg" and o[3] == "tuple":
+            ops = drv.blocks[o[1]]["stmts"][o[2]]["rv"]["ops"]
+            k = param_local - 2
+            if 0 <= k < len(ops):
+                return origins(drv).of_operand(ops[k])
+    return None
+
+
 def c16j(prog, rep):
     """C16.j — every mode reports success only for an input it has actually formatted: in each body that decodes an input (the stdin
     paths; the per-file body of the batch modes is C16.b) a successful return is reached only through Formatter::format, and in the
@@ -149,6 +183,7 @@ def c16j(prog, rep):
     R = "C16.j"
     FMT = "pasfmt_core::formatter::Formatter::format"
     n = 0
+    deciders = set()
     for k, b in sorted(prog.bodies.items()):
         if not k.startswith(FF) or k == FF + "decode_stdin" or k.startswith(FF + "decode_stdin::"):
             continue
@@ -163,12 +198,27 @@ def c16j(prog, rep):
         rep.check(bool(fm) and not early, R, "success-only-after-formatting:%s" % short(k),
                   "%s can report success for its input without having formatted it (an `Ok` return is reachable without passing Formatter::format): the modes then disagree on that input"
                   % short(k), where="%s:%d" % (b.file, b.line), instance={"body": short(k), "ok_returns": len(oks)})
+        deciders.add(b.root if b.kind == "Closure" else k)
+        # a shared driver hands (decoded, formatted) to the mode's callback: success only behind that call
+        cb_calls = {c.bb for c in b.calls() if "ops::function::Fn" in (c.callee or "") and c.args and re.match(r"^arg\d+$", canon(b, c.args[0]))}
+        if cb_calls:
+            early3 = [r for r in oks if b.can_reach_avoiding(0, {r}, cb_calls)]
+            rep.check(not early3, R, "success-only-after-the-mode's-operation:%s" % short(k),
+                      "%s can report success without having handed the formatted text to the mode's operation (print / compare)" % short(k), where="%s:%d" % (b.file, b.line), instance={"body": short(k)})
         if "to_stdout" in k:
             ws = {c.bb for c in b.calls() if norm(c.t.get("resolved") or c.callee or "") in (FF + "write_stdout", FF + "write")}
             early2 = [r for r in oks if b.can_reach_avoiding(0, {r}, ws)]
             rep.check(bool(ws) and not early2, R, "success-only-after-printing:%s" % short(k),
                       "%s can report success without having written the result to stdout" % short(k), where="%s:%d" % (b.file, b.line), instance={"body": short(k)})
-    rep.floor(R, "bodies that decode stdin", n, 2)
+    # both stdin modes are covered: each entry point decodes stdin in its own body / closure or through a shared driver examined above
+    covered = 0
+    for entry in ("format_stdin_to_stdout", "check_stdin"):
+        fam = [x for x in prog.bodies.values() if x.npath == FF + entry or x.npath.startswith(FF + entry + "::")]
+        if any(x.npath in deciders or (x.root if x.kind == "Closure" else x.npath) in deciders or
+               any(norm(c.t.get("resolved") or c.callee or "") in deciders for c in x.calls()) for x in fam):
+            covered += 1
+    rep.floor(R, "stdin modes whose decoding body was examined", covered, 2)
+    rep.floor(R, "bodies that decode stdin", n, 1)
 
 
 def effect_sites(prog):
@@ -615,6 +665,12 @@ def c16e(prog, rep):
         else:
             g0 = any(x[0] == "call" and x[2] == FF + "decode_stdin" for x in a0)
             g1 = any(x[0] == "call" and x[2] == "pasfmt_core::formatter::Formatter::format" for x in a1)
+            if not (g0 and g1):
+                # the stdin counterpart of exec_format: the closure receives (decoded input, formatted text) from the driver it is handed to
+                d0 = [callback_arg_origins(prog, b, x[1]) for x in a0 if x[0] == "param"]
+                d1 = [callback_arg_origins(prog, b, x[1]) for x in a1 if x[0] == "param"]
+                g0 = bool(d0) and all(o is not None and any(y[0] == "call" and y[2] == FF + "decode_stdin" for y in o) for o in d0)
+                g1 = bool(d1) and all(o is not None and any(y[0] == "call" and y[2] == "pasfmt_core::formatter::Formatter::format" for y in o) for o in d1)
         rep.check(g0 and g1, R, fn + ":compares-input-with-output", "%s does not compare the decoded input with the formatter's output" % fn, where=cs[0].where(),
                   instance={"fn": fn, "compares": "decoded contents vs formatter output"})
     # error discipline in file_formatter.rs: no Result is dropped
